@@ -5,7 +5,7 @@
 (* TLC checks the design theorems of resolution on the specification and   *)
 (* prints each pair with the set of admissible results.                    *)
 (***************************************************************************)
-EXTENDS Resolve, Rfc3986Examples, TLC, Json
+EXTENDS Resolve, Rfc3986Examples, TLC, Json, Vocab
 
 CONSTANTS BaseSegs, RefSegs, Fam
 
@@ -50,7 +50,16 @@ ExtraPairs == {<<<<115, 58, 47, 112>>, <<116, 58, 99, 58, 100>> \o Tail520>>,   
                <<<<115, 58, 47, 47, 104, 47, 98, 47, 37, 50, 101, 37, 50, 101, 47, 99>>, <<46, 46, 47, 103>>>>,   \* s://h/b/%2e%2e/c   ../g
                <<<<115, 58, 47, 47, 104, 47, 98, 47, 46, 37, 50, 69, 47, 99>>, <<46, 46, 47, 46, 46, 47, 103>>>>}
 Extra == b = NULL /\ \E pr \in ExtraPairs : b' = pr[1] /\ r' = pr[2] /\ PrintT(ToJson(Case(pr[1], pr[2])))
-Next == PickBase \/ PickRef \/ Examples \/ Extra
+\* scheme names, ports and media-type-like segments that mean something outside RFC 3986: resolution
+\* must not treat them differently (bases S://A/x/y and S:x/y, references with and without that scheme)
+KnownBases == {s \o <<58, 47, 47>> \o a \o <<47, 120, 47, 121>> : s \in VKnownScheme, a \in VKnownAuth}
+              \cup {s \o <<58, 120, 47, 121>> : s \in VKnownScheme}
+KnownRefs(s) == VKnownRef \cup {s \o <<58>> \o x : x \in VKnownRef} \cup {<<47, 47>> \o a \o <<47, 97, 47, 46, 46, 47, 98>> : a \in VKnownAuth}
+Known == /\ b = NULL
+         /\ \E kb \in KnownBases : \E kr \in KnownRefs(Parts(kb).scheme) :
+               /\ InLang(RefType(Fam, "ref"), kr)
+               /\ b' = kb /\ r' = kr /\ PrintT(ToJson(Case(kb, kr)))
+Next == PickBase \/ PickRef \/ Examples \/ Extra \/ Known
 
 HasDot(p) == \E i \in 1..Len(Segs(p)) : IsDotSeg(Segs(p)[i])
 
